@@ -13,10 +13,10 @@ use proptest::prelude::*;
 use serde::{Deserialize, Serialize};
 use std::rc::Rc;
 
-pub const RULE: &str = "(1) every built-in (all names of get_built_in_function_idents() except print / time_now) applied to every argument tuple of a boundary pool (NaN, +-inf, +-0, 2^53, +-1e30, 1e15, fractions, negatives; empty / ASCII / non-ASCII / numeric-looking / unit strings; empty, NaN-containing, nested, string and 30-element mixed lists; records; well- and ill-typed lambdas of arity 0/1/2/rest; built-ins as values): exhaustive for 0, 1 and 2 arguments, a 14-value sub-pool for 3 arguments, random tuples for 3-5 arguments; (2) grammar-generated typed programs with ill-typed noise and JSON inputs incl. __blots_function objects whose source is generated, mutated, blank or garbage; (2b) sessions of separately parsed and evaluated texts sharing heap and bindings (REPL / wasm style) in which long, late-failing functions (defined in one text or arriving as JSON inputs, with non-ASCII text before the failing position) are called from short later texts; (3b) each nesting construct (curried lambdas, applied lambdas, conditionals, lists, records, calls, parenthesised operators, do-blocks, via-lambdas, commented lists under lambdas, negations) nested 1..48 deep around a short and an over-long payload; (3) token- and byte-level mutants of the repository's examples, benches and README code blocks; (4) random UTF-8 weighted to the grammar's alphabet, up to 4 KiB, bracket depth <= 64. Every stage runs on each: get_pairs, AST conversion with and without comments, evaluation of every statement, validate / serialise / stringify of every result and binding, Display of every error plus span-inside-own-source, format_expr at four widths, the WASM formatting driver, expr_to_source, and for 2% the real CLI (file, -i). Violation = panic, abort, signal, exit 101, or an error span outside its text. Non-trivial = the case reached evaluation or is an enumerated built-in call; distinct by input text.";
+pub const RULE: &str = "(1) every built-in (all names of get_built_in_function_idents() except print / time_now) applied to every argument tuple of a boundary pool (NaN, +-inf, +-0, 2^53, +-1e30, 1e15, fractions, negatives; empty / ASCII / non-ASCII / numeric-looking / unit strings; empty, NaN-containing, nested, string and 30-element mixed lists; records; well- and ill-typed lambdas of arity 0/1/2/rest; built-ins as values): exhaustive for 0, 1 and 2 arguments, a 14-value sub-pool for 3 arguments, random tuples for 3-5 arguments; (2) grammar-generated typed programs with ill-typed noise and JSON inputs incl. __blots_function objects whose source is generated, mutated, blank or garbage; (2b) sessions of separately parsed and evaluated texts sharing heap and bindings (REPL / wasm style) in which long, late-failing functions (defined in one text or arriving as JSON inputs, with non-ASCII text before the failing position) are called from short later texts; (2c) inputs maps in the serde form of SerializableValue (how the wasm driver receives inputs) with function bodies that are blank, comments, statements, garbage or late-failing, converted with to_value and called; (3b) each nesting construct (curried lambdas, applied lambdas, conditionals, lists, records, calls, parenthesised operators, do-blocks, via-lambdas, commented lists under lambdas, negations) nested 1..48 deep around a short and an over-long payload; (3) token- and byte-level mutants of the repository's examples, benches and README code blocks; (4) random UTF-8 weighted to the grammar's alphabet, up to 4 KiB, bracket depth <= 64. Every stage runs on each: get_pairs, AST conversion with and without comments, evaluation of every statement, validate / serialise / stringify of every result and binding, Display of every error plus span-inside-own-source, format_expr at four widths, the WASM formatting driver, expr_to_source, and for 2% the real CLI (file, -i). Violation = panic, abort, signal, exit 101, or an error span outside its text. Non-trivial = the case reached evaluation or is an enumerated built-in call; distinct by input text.";
 pub const ASSUMPTIONS: &[&str] = &[
     "resource exhaustion is not a crash: range spans in (2*10^6, 2^32], error-swallowing recursive sort_by callbacks and unbounded recursion through slow paths are excluded by construction or counted as inconclusive (allocation-failure marker, per-case watchdog)",
-    "the WASM evaluate glue cannot run natively (JsValue); everything it calls in blots-core is covered",
+    "the WASM evaluate glue cannot run natively (JsValue); everything it calls in blots-core is covered, including the conversion of serde-deserialised inputs (2c)",
     "in-process crashes are caught with catch_unwind; aborts are attributed through the worker crash journal",
 ];
 
@@ -28,6 +28,9 @@ pub enum Case {
     /// texts evaluated one after the other in one session (REPL / wasm style): functions outlive
     /// the text they were written in and fail while being called from another one
     Session { chunks: Vec<String>, inputs: String },
+    /// an inputs map in the serde form of SerializableValue - how the wasm driver receives its
+    /// inputs (serde_wasm_bindgen) - converted with to_value and used by a program
+    SerdeInputs { doc: String, text: String },
 }
 
 pub struct Pipeline;
@@ -351,6 +354,36 @@ impl Check for Pipeline {
                     }
                 })
             }
+            Case::SerdeInputs { doc, text } => {
+                ctx.label("serde-inputs");
+                ctx.nontrivial(hash_str(&format!("{}{}", doc, text)));
+                let Ok(map) = serde_json::from_str::<indexmap::IndexMap<String, SerializableValue>>(doc) else {
+                    ctx.label("serde-inputs:rejected-by-serde");
+                    return Ok(());
+                };
+                let sess = Sess::new();
+                let mut rec = indexmap::IndexMap::new();
+                for (k, sv) in &map {
+                    // what blots-wasm's evaluate does with each input
+                    if let Ok(v) = sv.to_value(&mut sess.heap.borrow_mut()) {
+                        rec.insert(k.clone(), v);
+                    }
+                }
+                let r = sess.heap.borrow_mut().insert_record(rec);
+                sess.bind_value("inputs", r);
+                if let Ok(stmts) = parse_program(text, false) {
+                    let rc: Rc<str> = text.as_str().into();
+                    for st in &stmts {
+                        if let Stmt::Expr(e) | Stmt::Output(e) = &st.stmt {
+                            match sess.eval_ast(e, &rc) {
+                                Ok(v) => exercise_value(&sess, &v)?,
+                                Err(err) => exercise_error(&err, "statement over serde inputs")?,
+                            }
+                        }
+                    }
+                }
+                Ok(())
+            }
             Case::Session { chunks, inputs } => {
                 let all = chunks.join("\n");
                 if bracket_depth(&all) > 64 || resource_shape(&all) {
@@ -497,6 +530,35 @@ fn session_case(tape: &[u16]) -> Case {
         }
     }
     Case::Session { chunks, inputs }
+}
+
+
+/// inputs in SerializableValue's serde form with function bodies of every kind
+fn serde_inputs_case(tape: &[u16]) -> Case {
+    let mut t = Tape::new(tape);
+    let js = |x: &str| crate::model::json::write_string(x, false);
+    let mut entries: Vec<String> = Vec::new();
+    for i in 0..(1 + t.pick(3)) {
+        let body = match t.pick(4) {
+            0 => FN_SOURCES[t.pick(FN_SOURCES.len())].to_string(),
+            1 => ["", " ", "\n", "// c", "output x = 1", "x = 1", "1 +", "(", "a\nb", "\u{feff}", "x => x"][t.pick(11)].to_string(),
+            2 => LONG_FAILING_FNS[t.pick(LONG_FAILING_FNS.len())].to_string(),
+            _ => ["x + 1", "a + nope", "[x, x] via (q => q)", "do {\n  return x\n}", "x.k"][t.pick(5)].to_string(),
+        };
+        let args = ["[]", "[{\"Required\":\"x\"}]", "[{\"Required\":\"x\"},{\"Optional\":\"y\"}]", "[{\"Rest\":\"r\"}]", "[{\"Optional\":\"a\"},{\"Required\":\"b\"}]"][t.pick(5)];
+        let name = ["null", "\"f\"", "\"\""][t.pick(3)];
+        let scope = ["null", "{}", "{\"a\":{\"Number\":2.0}}", "{\"a\":{\"Lambda\":{\"name\":null,\"args\":[],\"body\":\"\",\"scope\":null}}}"][t.pick(4)];
+        let v = match t.pick(6) {
+            0 => "{\"Number\":1.5}".to_string(),
+            1 => format!("{{\"BuiltIn\":{}}}", js(["sum", "nope", "", "map"][t.pick(4)])),
+            2 => format!("{{\"List\":[{{\"Lambda\":{{\"name\":{},\"args\":{},\"body\":{},\"scope\":{}}}}}]}}", name, args, js(&body), scope),
+            _ => format!("{{\"Lambda\":{{\"name\":{},\"args\":{},\"body\":{},\"scope\":{}}}}}", name, args, js(&body), scope),
+        };
+        entries.push(format!("\"f{}\":{}", i, v));
+    }
+    let calls = ["inputs.f0(1)", "#f0", "[1, 2] via #f0", "inputs.f1(1, 2)", "typeof(inputs.f0)", "to_string(inputs)", "output o = inputs.f0", "map([1], inputs.f0)", "inputs.f0[0](3)"];
+    let text = (0..(1 + t.pick(3))).map(|_| calls[t.pick(calls.len())]).collect::<Vec<_>>().join("\n");
+    Case::SerdeInputs { doc: format!("{{{}}}", entries.join(",")), text }
 }
 
 fn generated_program(tape: &[u16]) -> Case {
@@ -729,6 +791,8 @@ pub fn run(ctx: &mut Ctx) {
     ctx.run_random(&Pipeline, prop::collection::vec(any::<u16>(), 0..400).prop_map(|t| generated_program(&t)), ctx.tier.pick(30_000, 600_000));
     // (2b) sessions: texts evaluated one after the other, functions called from another text
     ctx.run_random(&Pipeline, prop::collection::vec(any::<u16>(), 0..200).prop_map(|t| session_case(&t)), ctx.tier.pick(30_000, 600_000));
+    // (2c) inputs in the serde form the wasm driver receives
+    ctx.run_random(&Pipeline, prop::collection::vec(any::<u16>(), 0..60).prop_map(|t| serde_inputs_case(&t)), ctx.tier.pick(20_000, 300_000));
     // (3) corpus replay and mutation
     let corpus = corpus_texts();
     ctx.note(format!("corpus: {} texts from examples / benches / README", corpus.len()));
